@@ -42,11 +42,13 @@ type nsNode struct {
 	kind   string // f d l
 	data   string
 	target string
+	id     int // object identity: a new object at the same path has a new id
 }
 
 type nsSide struct {
 	e       *vEnv
 	handles map[string]uint64 // path -> handle value issued for it
+	issued  map[string]bool   // paths for which the last request returned a handle
 }
 
 type nsState struct {
@@ -57,6 +59,8 @@ type nsState struct {
 	twin  *nsSide // uncached baseline (C02 only)
 	model map[string]*nsNode
 	held  []string // paths for which the client holds a handle (in order of acquisition)
+	objAt map[string]int // path -> identity of the object the client's handle was issued for
+	nextID int
 }
 
 type nsCase struct {
@@ -70,7 +74,7 @@ func nsOptions(cfg nsCfg) ExportOptions {
 }
 
 func nsPlant(fs *recfs.FS, initial string) {
-	if initial != "rich" {
+	if initial != "rich" && initial != "held" {
 		return
 	}
 	vMust(fs.Mkdir("/a", 0o755), "mkdir")
@@ -91,18 +95,37 @@ func nsNew(cfg nsCfg, prop string, c *vCtx) *nsState {
 		h, err := e.mnt("/")
 		vMust(err, "mnt")
 		side.handles["/"] = h
+		if cfg.Initial == "held" {
+			// the client already holds a handle for every planted object
+			for _, p := range []string{"/a", "/b", "/a/b"} {
+				fh, err := e.lookupFH(side.handles[path.Dir(p)], path.Base(p))
+				vMust(err, "lookup "+p)
+				side.handles[p] = fh
+			}
+		}
 		return side
 	}
 	s.main = mk(nsOptions(cfg))
 	if prop == "C02" {
 		s.twin = mk(ExportOptions{AttrCacheTimeout: 1, AttrCacheSize: 64})
 	}
-	if cfg.Initial == "rich" {
+	if cfg.Initial == "rich" || cfg.Initial == "held" {
 		s.model["/a"] = &nsNode{kind: "d"}
 		s.model["/a/b"] = &nsNode{kind: "f", data: "xy"}
 		s.model["/b"] = &nsNode{kind: "l", target: "a"}
 	}
 	s.held = []string{"/"}
+	if cfg.Initial == "held" {
+		s.held = []string{"/", "/a", "/a/b", "/b"}
+	}
+	s.objAt = map[string]int{}
+	for _, n := range s.model {
+		s.nextID++
+		n.id = s.nextID
+	}
+	for _, p := range s.held {
+		s.objAt[p] = s.model[p].id
+	}
 	return s
 }
 
@@ -149,6 +172,11 @@ func nsBackendDump(fs *recfs.FS) string {
 func (s *nsState) key() string {
 	var sb strings.Builder
 	sb.WriteString(s.modelDump())
+	for _, h := range s.held { // which held handles name an object that no longer exists (oracle latitude differs)
+		if n := s.model[h]; h != "/" && (n == nil || n.id != s.objAt[h]) {
+			sb.WriteString("!" + h)
+		}
+	}
 	sb.WriteString("|" + nsBackendDump(s.main.e.fs) + "|")
 	for _, side := range []*nsSide{s.main, s.twin} {
 		if side == nil {
@@ -398,6 +426,7 @@ func (side *nsSide) handleFor(p string) uint64 {
 
 func (side *nsSide) do(op nsOp) nsReply {
 	e := side.e
+	side.issued = map[string]bool{}
 	r := nsReply{attrs: map[string]*wire.Fattr{}, entries: map[string]uint64{}}
 	var a wire.Enc
 	var proc uint32
@@ -505,6 +534,7 @@ func (side *nsSide) do(op nsOp) nsReply {
 			if en.FH != nil && res.Status == 0 {
 				if v, ok := wire.FHVal(en.FH); ok {
 					side.handles[pjoin(op.H, en.Name)] = v
+					side.issued[pjoin(op.H, en.Name)] = true
 				}
 			}
 		}
@@ -514,6 +544,7 @@ func (side *nsSide) do(op nsOp) nsReply {
 		if v, ok := wire.FHVal(res.FH); ok {
 			r.fh, r.hasFH = v, true
 			side.handles[child] = v
+			side.issued[child] = true
 		}
 	}
 	return r
@@ -537,6 +568,20 @@ func (s *nsState) apply(op nsOp, check bool, hist []nsOp) {
 		}
 	}
 	v := s.expect(op)
+	// A handle whose object has since been removed, renamed away or replaced names no
+	// object the tree model knows: POSIX defines no outcome for it (STALE, an error that fits
+	// the original object's type, or service of the object now at the path are all seen in
+	// NFS servers). The status of such a request is latitude; its effects are still judged.
+	dangling := func(h string) bool {
+		if h == "" || h == "/" {
+			return false
+		}
+		n := s.model[h]
+		return n == nil || n.id != s.objAt[h]
+	}
+	if v.ok && (dangling(op.H) || dangling(op.H2)) {
+		v.ok, v.either = false, true
+	}
 	before := nsBackendDump(s.main.e.fs)
 	// fileids known before the request, for stability checks (C04)
 	listedBefore := false
@@ -570,6 +615,19 @@ func (s *nsState) apply(op nsOp, check bool, hist []nsOp) {
 		applied = true
 	}
 	_ = applied
+	defer func() {
+		for _, n := range s.model {
+			if n.id == 0 {
+				s.nextID++
+				n.id = s.nextID
+			}
+		}
+		for p := range s.main.issued {
+			if n := s.model[p]; n != nil {
+				s.objAt[p] = n.id
+			}
+		}
+	}()
 	if s.prop == "C02" {
 		switch {
 		case okReply && !v.ok && !v.either:
@@ -771,12 +829,12 @@ func init() {
 	vRegister(&vCheck{
 		id: "C02", level: "model_checking", flavour: "vtime",
 		shards: func(string) int { return 16 },
-		rule: "breadth-first search over request histories of LOOKUP, CREATE, MKDIR, SYMLINK (targets a, b/x), REMOVE, RMDIR, RENAME (all pairs of held directory handles and names), READDIR, READDIRPLUS, GETATTR, READLINK over names {a,b}, issued through every handle the model client holds (including handles of objects since removed or renamed), on the real server in lockstep with an uncached twin; configurations: attribute TTL {1ns,1h} x directory cache {off,on} x negative caching {off,on}, from an empty export and from a tree with a directory, a file and a symlink to a directory, plus a clock jump beyond every TTL as an operation; depth 2 for every configuration and depth 3 for the uncached and the fully cached one (thorough: depth 3 everywhere, 4 for those two); states deduplicated on (model tree, backend tree, handle tables, per-handle attributes, attribute/negative/directory cache contents with validity). Oracles after every transition: success/failure agrees with the POSIX-like tree model (with measured latitude), the backend tree equals the model tree and is unchanged by a failed request, listings and link targets equal the tree, and the reply equals the uncached twin's reply (status, names, targets, type/size/mode/fileid).",
+		rule: "breadth-first search over request histories of LOOKUP, CREATE, MKDIR, SYMLINK (targets a, b/x), REMOVE, RMDIR, RENAME (all pairs of held directory handles and names), READDIR, READDIRPLUS, GETATTR, READLINK over names {a,b}, issued through every handle the model client holds (including handles of objects since removed or renamed), on the real server in lockstep with an uncached twin; configurations: attribute TTL {1ns,1h} x directory cache {off,on} x negative caching {off,on}, from an empty export, from a tree with a directory, a file and a symlink to a directory, and from that tree with the client already holding a handle for every object, plus a clock jump beyond every TTL as an operation; depth 2 for every configuration, 3 for the uncached and the fully cached one from the empty export and for every cached configuration from the all-handles-held start (thorough: one more everywhere); states deduplicated on (model tree, backend tree, handle tables, per-handle attributes, attribute/negative/directory cache contents with validity). Oracles after every transition: success/failure agrees with the POSIX-like tree model (with measured latitude), the backend tree equals the model tree and is unchanged by a failed request, listings and link targets equal the tree, and the reply equals the uncached twin's reply (status, names, targets, type/size/mode/fileid).",
 		assumptions: []string{"handles are path-based: a request through a handle is judged against the object now at the path the handle was issued for",
 			"latitude: REMOVE of an empty directory may succeed or fail; RENAME onto an existing compatible object may replace it or fail (the backend refuses)"},
 		run: func(c *vCtx) {
 			var cfgs []nsCfg
-			for _, ini := range []string{"empty", "rich"} {
+			for _, ini := range []string{"empty", "rich", "held"} {
 				for _, cf := range nsConfigs() {
 					cf.Initial = ini
 					cfgs = append(cfgs, cf)
@@ -790,6 +848,9 @@ func init() {
 				}
 				if edge && cf.Initial == "empty" {
 					d++
+				}
+				if cf.Initial == "held" && (cf.DirC || cf.NegC || cf.TTL > 1) {
+					d++ // the client starts with every handle: cache effects of cross-directory operations are 3 requests away
 				}
 				return d
 			})
